@@ -32,6 +32,7 @@ func init() {
 			c.run("C01-S1", "shared with C02: digest compare and saved==size gates dominate success", func(c *Ctx) { c02Digest(c); c02SavedSize(c); c02OneStream(c) })
 			c.run("C01-S2", "shared with C07-R5: the names shown are the names written", c07R5)
 			c.run("C01-S3", "shared with C08-R1/R2/R4: a resumed file is cut at the offset both ends proved equal, and the compression probe gives the sender's offset back", func(c *Ctx) { c08R1(c); c08R2(c); c08R4(c) })
+			c.run("C01-S7", "shared with C11-R10: the size-probing hand-shake between the encoder and the ack reader cannot stall a fault-free transfer", c11BufInit)
 			c.run("C01-S6", "shared with C07-R2b: one local name per source path id (two sources with the same base name are not merged)", c07MapKey)
 		})
 }
@@ -272,7 +273,10 @@ func c01R3(c *Ctx) {
 		return ok && st.Addr == ssa.Value(uj.Params[0])
 	})
 	c.check(stored && hit == nil, "compressType/decoded-value-stored", c.pos(uj.Pos()), "the compress setting decoded from the config is stored on every successful decode", "the decoded compress setting is dropped: the client decides compression from the default, the server from its -c option")
-	for _, side := range []struct{ fn, comp string; send bool }{{"trzszTransfer.sendCompressFlag", tT + "sendLine", true}, {"trzszTransfer.recvCompressFlag", tT + "recvCheck", false}} {
+	for _, side := range []struct {
+		fn, comp string
+		send     bool
+	}{{"trzszTransfer.sendCompressFlag", tT + "sendLine", true}, {"trzszTransfer.recvCompressFlag", tT + "recvCheck", false}} {
 		f := c.fn(side.fn)
 		dc := callsIn(f, idIs(tT+"isCompressFixed"))
 		if len(dc) != 1 {
@@ -325,7 +329,10 @@ func c01R3(c *Ctx) {
 		c.check(good, "sendCompressFlag/announce=use", c.ipos(ci), "the flag announced is the flag returned to the caller", "the sender announces one compression flag and uses another")
 	}
 	// both drivers pass the decision on to their codec stage
-	for _, d := range []struct{ fn, flag, stage string; idx int }{
+	for _, d := range []struct {
+		fn, flag, stage string
+		idx             int
+	}{
 		{"trzszTransfer.sendFileDataV2", tT + "sendCompressFlag", tT + "pipelineEncodeData", 3}, {"trzszTransfer.recvFileDataV2", tT + "recvCompressFlag", tT + "pipelineDecodeData", 3}} {
 		f := c.fn(d.fn)
 		fl := callsIn(f, idIs(d.flag))
@@ -396,7 +403,10 @@ func c01R4(c *Ctx) {
 		c.check(num(a) == num(b) && len(a) > 0, "dispatch/"+pr[0]+"~"+pr[1], "", "both ends switch behaviour at the same protocol version", "the two ends switch behaviour at different protocol versions")
 	}
 	// role order in the per-file loop
-	type role struct{ name string; ids []string }
+	type role struct {
+		name string
+		ids  []string
+	}
 	for _, side := range []struct {
 		f     *ssa.Function
 		roles []role
@@ -1003,7 +1013,9 @@ func c01R11(c *Ctx) {
 				c.bad(c.fnName(side.f)+"/no-early-success@"+shortID(calleeID(nc.Common())), c.ipos(nc), "the per-file loop around the name step was not found")
 				continue
 			}
-			exit := func(from, to *ssa.BasicBlock) bool { return from == header && !header.Dominates(to) || (from == header && !reachesBlock(to, header)) }
+			exit := func(from, to *ssa.BasicBlock) bool {
+				return from == header && !header.Dominates(to) || (from == header && !reachesBlock(to, header))
+			}
 			hit, path := reachFromE(nc.Block(), instrIndex(nc.(ssa.Instruction))+1, isNilErrReturn, nil, exit)
 			c.check(hit == nil, c.fnName(side.f)+"/no-early-success@"+shortID(calleeID(nc.Common())), c.ipos(nc), "success is returned only after the loop's own exit test ended it (every announced file had its round)", "the per-file loop can be left with success before all files had their round", c.pathStr(path)...)
 		}
